@@ -9,6 +9,7 @@
 //! are in the JSON), 3 = usage error. Verdicts are made by /verif/check.
 
 mod common;
+mod ledger;
 
 mod c02;
 mod c03;
